@@ -14,15 +14,6 @@ pub fn main(ctx: &Ctx) -> i32 {
             }
             0
         }
-        "PROBE" => {
-            let work = rnv_engine::work_dir(ctx);
-            let cfg = crate::srv::NodeCfg { api_login_ttl_s: 1, console_login_ttl_s: 1, cluster_token: "x".into() };
-            let n = crate::srv::Node::start(&work, "probe", &cfg).unwrap();
-            for i in 0..6 {
-                println!("{} {:?}", i, n.api_login(crate::srv::ADMIN_USER, crate::srv::admin_pass()));
-            }
-            0
-        }
         other => {
             eprintln!("unknown property {} (this binary serves C16 and C17)", other);
             2
